@@ -315,82 +315,3 @@ class OnTimerEvent:
         local = sms.instance_state_modes[self.supvisors.mapper.local_identifier]
         return [whole('F:_state:'), contents(local.instance_states), field(local, 'master_identifier'),
                 field(sms, 'update_mark'), contents(sms.instance_state_modes)]
-
-
-# ------------------------------------------------------------------------------------------ invalidation of the lost
-FAILED = SupvisorsInstanceStates.FAILED
-
-
-def process_frame():
-    """what ProcessStatus.invalidate_identifier may touch, for whichever process (frame of contracts/c11.py): the
-    synthesis fields, the sets of running identifiers and the payload records"""
-    return [whole('F:_state:'), whole('F:expected_exit:'), whole('F:running_identifiers:'), whole('F:last_event_mtime:'),
-            whole('F:forced_state:'), whole('F:forced_reason:'), whole('F:_extra_args:'), whole('F:_program_name:'),
-            whole('F:_process_index:'), whole('S.'), whole('R.')]
-
-
-def instance_frame(ctx):
-    sms = ctx.supvisors.state_modes
-    local = sms.instance_state_modes[ctx.supvisors.mapper.local_identifier]
-    return [whole('F:checking_time:'), contents(local.instance_states), field(local, 'master_identifier'),
-            field(sms, 'update_mark'), contents(sms.instance_state_modes)]
-
-
-def invalidated_state_ok(ctx, i, was_failed, old_state):
-    """statement: 'by the next local tick at the latest it is STOPPED (ISOLATED when auto_fence is set ...)';
-    'the local instance is never ISOLATED'; every instance that was not FAILED keeps its state"""
-    st = ctx.instances[i]._state
-    return ite(was_failed,
-               st in (SupvisorsInstanceStates.STOPPED, SupvisorsInstanceStates.ISOLATED)
-               and implies(i == ctx.supvisors.mapper.local_identifier or not ctx.supvisors.options.auto_fence,
-                           st == SupvisorsInstanceStates.STOPPED),
-               st == old_state)
-
-
-@contract('context:Context.invalidate_failed', props=['C07', 'C06'])
-class InvalidateFailed:
-    """statement: 'by the next local tick at the latest it is STOPPED (ISOLATED when auto_fence is set and the Master is
-    in a working state), every process it was running being reported FATAL and no longer counted as running there'.
-    Runs on every fsm.next() (structural obligation): exactly the FAILED instances are invalidated."""
-    raises = ()
-
-    def modifies(self):
-        return instance_frame(self) + process_frame() + [whole('F:major_failure:'), whole('F:minor_failure:')]
-
-    def loop0_modifies(self, invalidated_identifiers):
-        return instance_frame(self) + process_frame() + [contents(invalidated_identifiers)]
-
-    def pre_valid(self):
-        sv = self.supvisors
-        return sv.context is self and valid_structure(sv) and distinct_entries(sv)
-
-    def post_exactly_the_failed_are_invalidated(self, old):
-        return forall(str, lambda i: implies(i in self.instances, invalidated_state_ok(
-            self, i, old.self.instances[i]._state == FAILED, old.self.instances[i]._state)))
-
-    def post_result_identifiers(self, result, old):
-        return forall(str, lambda i: (i in result[0]) == (i in self.instances and old.self.instances[i]._state == FAILED))
-
-    def post_still_valid(self):
-        return valid_structure(self.supvisors) and distinct_entries(self.supvisors)
-
-    def loop0_inv(self, seen, invalidated_identifiers, failed_processes, old):
-        sv = self.supvisors
-        return (sv.context is self and valid_structure(sv) and distinct_entries(sv)
-                and was_fresh(invalidated_identifiers) and was_fresh(failed_processes)
-                and forall(str, lambda i: implies(i in self.instances, invalidated_state_ok(
-                    self, i, i in seen and old.self.instances[i]._state == FAILED, old.self.instances[i]._state)))
-                and forall(str, lambda i: (i in invalidated_identifiers) == (
-                    i in seen and old.self.instances[i]._state == FAILED)))
-
-    def comp0_inv(self, k, comp_acc, comp_items, invalidated_identifiers, failed_processes, status, loop_old, old):
-        """inner loop (the set comprehension calling invalidate_identifier): instance states, the result list and the
-        structure are those of its entry"""
-        sv = self.supvisors
-        return (sv.context is self and valid_structure(sv) and distinct_entries(sv)
-                and was_fresh(comp_acc) and was_fresh(invalidated_identifiers) and was_fresh(failed_processes)
-                and forall(str, lambda i: implies(i in self.instances,
-                                                  self.instances[i]._state == loop_old.self.instances[i]._state)))
-
-    def comp0_modifies(self, comp_acc):
-        return [contents(comp_acc)] + process_frame()
